@@ -183,7 +183,7 @@ def rand_cfg(rng, name='m1', kinds=None, max_npix=768, min_delta=0, rec_unsigned
         sent = rng.choice(['default', 'default', 'default', '-9999', '0', '1^1'])
         c = MapCfg(name, 'plain', covord, spord, dtype=dt, sentinel=sent)
     elif k == 'bool':
-        c = MapCfg(name, 'plain', covord, spord, dtype='b1', sentinel=rng.choice(['default', 'default', 'F']))
+        c = MapCfg(name, 'plain', covord, spord, dtype='b1', sentinel=rng.choice(['default', 'default', 'F', 'T']))
     elif k == 'packed':
         c = MapCfg(name, 'packed', covord, spord)
     elif k == 'wide':
